@@ -53,57 +53,5 @@ impl HeaderText for HeaderName { open spec fn text(&self) -> Seq<char> { self.na
 #[verifier::external_body]
 pub fn header_content_type() -> (r: HeaderName) ensures r.name@ == "content-type"@ { unimplemented!() }
 
-// dropshot::Body (body.rs) and hyper::Response<Body>, http::response::Builder as ghost records (assumption A6)
-pub struct Body { pub bytes: Ghost<Seq<char>> }
-impl From<String> for Body {
-    #[verifier::external_body]
-    fn from(s: String) -> (b: Body) ensures b.bytes@ == s@ { unimplemented!() }
-}
-pub struct Response { pub status: StatusCode, pub hdrs: HeaderMap, pub body: Body }
-impl Response {
-    #[verifier::external_body]
-    pub fn status(&self) -> (r: StatusCode) ensures r == self.status { unimplemented!() }
-    #[verifier::external_body]
-    pub fn headers_mut(&mut self) -> (r: &mut HeaderMap)
-        ensures *r == old(self).hdrs, *final(r) == final(self).hdrs, final(self).status == old(self).status, final(self).body == old(self).body { unimplemented!() }
-}
-#[verifier::external_body]
-#[derive(Debug)]
-pub struct HttpBuildError { _p: u8 }
-/// http::response::Builder; `failed` models its sticky error state
-pub struct Builder { pub status: StatusCode, pub hdrs: HeaderMap, pub failed: bool }
-/// hyper::Response::builder()
-#[verifier::external_body]
-pub fn response_builder() -> (b: Builder) ensures b.status.code == 200, hm_view(b.hdrs) == Seq::<(Seq<char>, Seq<char>)>::empty(), !b.failed { unimplemented!() }
-impl Builder {
-    #[verifier::external_body]
-    pub fn headers_mut(&mut self) -> (r: Option<&mut HeaderMap>)
-        ensures (r is Some) == !old(self).failed,
-            r is Some ==> *r->Some_0 == old(self).hdrs && *final(r->Some_0) == final(self).hdrs,
-            final(self).status == old(self).status, final(self).failed == old(self).failed { unimplemented!() }
-    #[verifier::external_body]
-    pub fn status(self, s: StatusCode) -> (b: Builder) ensures b.status == s, b.hdrs == self.hdrs, b.failed == self.failed { unimplemented!() }
-    /// Builder::header appends; it fails only if name/value conversion fails, which cannot happen for the
-    /// constant names and for values satisfying header_value_ok
-    #[verifier::external_body]
-    pub fn header<K: HeaderText, V: HeaderText>(self, k: K, v: V) -> (b: Builder)
-        ensures b.status == self.status,
-            b.failed == (self.failed || !header_value_ok(v.text())),
-            !b.failed ==> hm_view(b.hdrs) == hm_view(self.hdrs).push((k.text(), v.text())) { unimplemented!() }
-    #[verifier::external_body]
-    pub fn body(self, body: Body) -> (r: Result<Response, HttpBuildError>)
-        ensures (r is Ok) == !self.failed,
-            r is Ok ==> r->Ok_0.status == self.status && r->Ok_0.hdrs == self.hdrs && r->Ok_0.body == body { unimplemented!() }
-}
-pub broadcast axiom fn ax_constant_header_values_ok()
-    ensures #[trigger] header_value_ok("application/json"@);
-
-// serde_json::to_string_pretty on HttpErrorResponseBody: some function of the three fields, total
-pub uninterp spec fn json_pretty(rid: Seq<char>, code: Option<Seq<char>>, msg: Seq<char>) -> Seq<char>;
-pub open spec fn optv(o: Option<String>) -> Option<Seq<char>> { match o { Some(s) => Some(s@), None => None } }
-#[verifier::external_body]
-#[derive(Debug)]
-pub struct SerdeJsonError { _p: u8 }
-
 #[verifier::external_body]
 pub fn fmt_opaque() -> String { unimplemented!() }
